@@ -1,7 +1,7 @@
 """Shared framework for the checks: build, model runner client, verdicts, evidence, known findings."""
 import os, sys, json, time, subprocess, hashlib, fcntl, re, glob, random, traceback
 
-ROOT = "/verif"
+ROOT = os.path.dirname(os.path.dirname(os.path.abspath(__file__)))
 REPO = os.environ.get("VERIF_REPO", "/repo")
 BUILD = os.path.join(ROOT, "build")
 COQ = os.path.join(ROOT, "coq")
